@@ -403,6 +403,30 @@ def known_key(key, exc):
 
 
 # ------------------------------------------------------------------ run
+def expected_family(desc):
+    """The `gnfam` line the extracted registry must print for a dumped descriptor."""
+    fam = desc["family"]
+    opt = lambda x: "none" if x is None else str(x)  # noqa: E731
+    b = lambda x: "1" if x else "0"  # noqa: E731
+    if fam == "factory":
+        return f"factory {desc['value_fn']} {b(desc['random_weights'])} {opt(desc['owner'])}"
+    if fam == "cheerleader":
+        return f"cheerleader {opt(desc['owner'])} {opt(desc['cheerleader'])}"
+    if fam in ("graph_dist", "graph_nx"):
+        return "graph"
+    if fam == "xos":
+        return f"xos {desc['number_of_additive']} {b(desc['normalize'])} {b(desc['normalize_additive'])}"
+    if fam == "xs":
+        return f"xs {desc['num_unit_demand']}"
+    if fam == "oxs":
+        return f"oxs {desc['number_of_xs']} {b(desc['normalize'])}"
+    if fam == "coverage":
+        return f"coverage {desc['universum_mult']}"
+    if fam in ("external", "unknown"):
+        return "none"
+    return fam
+
+
 def plan(ctx):
     """[(n, number of fresh seeds)], edge seeds are added for n <= 5."""
     if ctx.quick:
@@ -431,11 +455,29 @@ def run(ctx, proof):
     if unknown:
         ctx.notes.append(f"keys the dumper could not classify (GUnknown, proof obligation fails): {unknown}")
     driver_ok = common.DRIVER.exists()
+    if not proof.get("ok"):
+        # a proof obligation failed (e.g. a GUnknown entry): the build stopped before the driver step.  Rebuild the
+        # model part only, so that the correspondence still runs against the *current* registry.
+        try:
+            common.build(["theories/GeneratorsRegistry.vo"])
+            driver_ok = common.DRIVER.exists()
+        except Exception as e:  # noqa: BLE001
+            ctx.notes.append(f"model could not be rebuilt after the proof failure ({e}); correspondence skipped, oracle still runs")
+            driver_ok = False
     flags = {}
     if driver_ok:
         try:
-            outs = common.run_driver([f"gnflags {i}" for i in range(len(keys))])
+            outs = common.run_driver([f"gnflags {i}" for i in range(len(keys) + 1)] + [f"gnfam {i}" for i in range(len(keys) + 1)])
             flags = {k: o.split() for k, o in zip(keys, outs)}
+            fams = outs[len(keys) + 1:]
+            stale = [(k, fams[i], expected_family(gens[k][1])) for i, k in enumerate(keys)
+                     if fams[i] != expected_family(gens[k][1])]
+            if fams[len(keys)] != "absent":
+                stale.append(("<end>", fams[len(keys)], "absent"))
+            if stale:
+                ctx.violation(f"the registry held by the extracted model differs from the registry dumped from the repository: {stale[:3]}",
+                              {"differences": stale[:10]}, found_input=False)
+                driver_ok = False
         except Exception as e:  # noqa: BLE001 - stale driver after a failed build
             ctx.notes.append(f"driver unusable ({e}); correspondence skipped, oracle still runs")
             driver_ok = False
@@ -447,6 +489,8 @@ def run(ctx, proof):
                 ctx.violation(f"key {k}: the registry entry's family is {'monotone' if fl[1] == '1' else 'not monotone'} in the model "
                               f"but the property text says otherwise", {"key": k, "term": gens[k][0]}, found_input=False)
 
+    import time
+    t_start = time.time()
     cases = []       # (key, idx, n, seed, desc, tab, line)
     seen_exc = set()
     skipped = []
@@ -479,8 +523,9 @@ def run(ctx, proof):
                                       f"no longer holds: {u}", dict(rep, detail=str(u), log=[e[0] for e in rec.log][:20]),
                                       found_input=False)
                 for m in notes:
+                    m = "support excursion (not needed by the theorem): " + m
                     if m not in ctx.notes and len(ctx.notes) < 30:
-                        ctx.notes.append("support excursion (not needed by the theorem): " + m)
+                        ctx.notes.append(m)
                 if exc is not None:
                     ctx.count("outcome", "raises " + type(exc).__name__)
                     sig = (key, type(exc).__name__)
@@ -534,6 +579,7 @@ def run(ctx, proof):
                                 "values": tab[:8]}, limit=8)
                 cases.append((key, idx, n, seed, desc, tab, line, None))
 
+    ctx.coverage["implementation_and_oracle_s"] = round(time.time() - t_start, 1)
     ctx.coverage["keys_checked"] = len(keys) - len(skipped)
     ctx.coverage["keys_skipped"] = skipped
     ctx.coverage["exhaustive"] = False
@@ -543,12 +589,25 @@ def run(ctx, proof):
     if not driver_ok:
         ctx.coverage["model_cases"] = 0
         return
+    t_model = time.time()
     try:
-        outs = run_driver_parallel([f"gn {c[1]} {c[2]} {c[6]}" for c in todo], jobs=12)
+        # the expensive cases (large n) come last: deal them round-robin over the driver processes
+        jobs = 12
+        order = [i for r in range(jobs) for i in range(r, len(todo), jobs)]
+        res = run_driver_parallel([f"gn {todo[i][1]} {todo[i][2]} {todo[i][6]}" for i in order], jobs=jobs)
+        outs = [None] * len(todo)
+        for i, o in zip(order, res):
+            outs[i] = o
     except Exception as e:  # noqa: BLE001
         ctx.violation(f"extracted model could not be run: {e}", {"error": str(e)[:2000]}, found_input=False)
         return
     ctx.coverage["model_cases"] = len(todo)
+    ctx.coverage["extracted_model_s"] = round(time.time() - t_model, 1)
+    if not ctx.quick or __import__("os").environ.get("VERIF_C10_SHARD"):
+        try:
+            vm_shard(ctx, todo, outs)
+        except Exception as e:  # noqa: BLE001
+            ctx.violation(f"in-Coq evaluation shard could not be run: {e}", {"traceback": traceback.format_exc()[-1500:]}, found_input=False)
     mism = []
     for (key, idx, n, seed, desc, tab, line, exc), out in zip(todo, outs):
         term = gens[key][0]
@@ -602,6 +661,85 @@ def run(ctx, proof):
                       f"{ctx.evaluations} calls)", dict(rep, detail=detail, disagreeing_cases=len(mism),
                                                         other=[(m[0]["key"], m[0]["n"], m[1][:80]) for m in mism[1:6]]),
                       found_input=False)
+
+
+# ------------------------------------------------------------------ in-Coq evaluation shard (thorough tier)
+def _coq_q(tok):
+    f = tokq(tok)
+    return f"({f.numerator} # {f.denominator})" if f.numerator >= 0 else f"(({f.numerator}) # {f.denominator})"
+
+
+def coq_draws(line):
+    """The driver's draws text as a Coq term of type gn_draws."""
+    t = line.split()
+    pos = [0]
+
+    def nxt():
+        pos[0] += 1
+        return t[pos[0] - 1]
+
+    def lst(f):
+        k = int(nxt())
+        return "[" + "; ".join(f() for _ in range(k)) + "]"
+
+    nat = lambda: nxt() + "%nat"  # noqa: E731
+    q = lambda: _coq_q(nxt())  # noqa: E731
+    tag = nxt()
+    if tag == "factory":
+        owner = nat()
+        w = lst(q)
+        tab = lst(lambda: f"({q()}, {q()})")
+        return f"DrFactory {owner} {w} {tab}"
+    if tag == "owner":
+        return f"DrOwner {nat()}"
+    if tag == "cheer":
+        owner = nat()
+        kind = nxt()
+        return f"DrCheer {owner} ({'PyInt' if kind == 'py' else 'NpInt'} {nat()})"
+    if tag == "matrix":
+        return "DrMatrix " + lst(lambda: lst(q))
+    if tag == "perm":
+        return "DrPerm " + lst(nat)
+    if tag == "weights":
+        return "DrWeights " + lst(lambda: lst(q))
+    if tag == "picks":
+        return "DrPicks " + lst(lambda: f"({nat()}, {q()})")
+    if tag == "k":
+        return f"DrK {nat()}"
+    if tag == "sets":
+        return "DrSets " + lst(lambda: lst(nat))
+    raise ValueError(tag)
+
+
+def vm_shard(ctx, todo, outs, limit=60):
+    """Evaluate a sample of the model runs inside Coq (vm_compute) and require the extracted driver's outputs:
+    removes extraction + the OCaml toolchain from the trusted base for that shard."""
+    import subprocess
+    picked, per = [], {}
+    for c, o in zip(todo, outs):
+        fam = c[4]["family"]
+        if c[2] <= 4 and per.get((fam, c[2]), 0) < 3 and len(picked) < limit and len(c[6]) < 6000:
+            per[(fam, c[2])] = per.get((fam, c[2]), 0) + 1
+            picked.append((c, o))
+    lines = ["From ICG Require Import Prelude Bits RegistryTypes Generators GeneratorsRegistry.", "Local Open Scope Q_scope.", ""]
+    for i, (c, o) in enumerate(picked):
+        toks = o.split()
+        exp = "None" if toks[0] == "err" else "(Some [" + "; ".join(_coq_q(x) for x in toks[4:]) + "])"
+        lines.append(f"Example shard_{i} : gn_tab_eqb (gn_registry_run {c[1]}%nat {c[2]}%nat ({coq_draws(c[6])})) {exp} = true.")
+        lines.append("Proof. vm_compute. reflexivity. Qed.")
+    f = ctx.work / "cases_C10.v"
+    f.write_text("\n".join(lines) + "\n")
+    lock = common._lock()
+    try:
+        p = subprocess.run(["timeout", "600", "coqc", "-Q", str(common.COQ / "theories"), "ICG", "-Q", str(ctx.work), "C10Shard", str(f)],
+                           capture_output=True, text=True, cwd=ctx.work)
+    finally:
+        lock.close()
+    ctx.coverage["vm_compute_shard_cases"] = len(picked)
+    ctx.coverage["vm_compute_shard_ok"] = p.returncode == 0
+    if p.returncode != 0:
+        ctx.violation("in-Coq evaluation (vm_compute) of the model disagrees with the extracted OCaml model on the shard",
+                      {"coqc_output": (p.stdout + p.stderr)[-2000:], "cases": len(picked)}, found_input=False)
 
 
 def replay(ctx, rep):
